@@ -422,7 +422,7 @@ Proof.
   apply step_frame_sbind; [apply recv_loop_frame|].
   intros s1 [r early].
   apply step_frame_sbind.
-  - unfold restart_remote_inactivity_timer.
+  - unfold restart_remote_inactivity_timer, acked_counts_as_sent.
     repeat break_match; cbn [step_frame]; exact (frame_refl s1).
   - intros s3 _. unfold set_recovering. repeat break_match; cbn [step_frame]; first [exact I | exact (frame_refl s3)].
 Qed.
